@@ -72,6 +72,9 @@ func checkC13(rep *core.Report) {
 	for _, p := range pipes {
 		if p.worker != nil && p.recv != nil {
 			checkReleaseDiscipline(prog, r6, r6, p.worker, p.recv, p.decode)
+			// the mirror loop releases what it dequeues: the worker must queue a copy, or the receive buffer is
+			// released a second time there
+			checkMirrorOwnBuffer(r6, p.worker, core.LoopOf(p.worker, p.recv), core.FuncName(p.worker))
 		}
 	}
 	// ---- R13.4 / R13.5 over the whole program ----
